@@ -38,6 +38,13 @@ class UnhashableCallable:
         return self.answer
     def __eq__(self, other):
         return isinstance(other, UnhashableCallable) and other.answer == self.answer
+class ClassTagVert(Vertex):
+    """the searched attribute lives on the class (a class-level default), not in the instance dictionary"""
+    tag = None
+class StrVert(Vertex):
+    """a vertex class that defines __str__ but not __repr__"""
+    def __str__(self):
+        return "custom-str"
 class FalsyCallable:
     """A callable user object whose truth value is False (e.g. an empty allow-list with __len__)."""
     def __init__(self, answer):
